@@ -26,6 +26,7 @@ EXPLANATION = (
     ' Round 4: (D6) the numeric and the symbolic embedding are the same construction on the same arguments and lifted_matrix has no other exit (shared with C01-D5).'
     ' Round 5: (D7) no cached_property / cache on mutable circuits or keyed by tolerant equality; (D8) wrapper matrices are the fixed matrix functions of the wrapped matrix (C07-D3).'
     " Round 6: bind substitutes with the caller's map as given (never re-keyed / filtered; a plain copy is fine); a bind with several exits is judged exit by exit, and `return self` is not a bound object (D2)."
+    ' Round 7: insertion-ordered-dict spelling of Circuit.free_symbols; identification of symbols by name is a violation (D4).'
 )
 RULE_TEXT = "instances = bind/replace_params/free_symbols methods of all gate, operation and circuit classes, sub_symbols arms, replace() call sites; distinct by (rule, construct)"
 ASSUMPTIONS = [
